@@ -286,9 +286,12 @@ theorem whole_nd_eval (env : Env) (root : Msg) (e : Expr) (he : wholeHasDiscard 
         | none => exact h
         | some t => exact tail t d
     all_goals
-      rcases env.fileTime _ with _ | ⟨t, s⟩
+      rcases env.fileTime _ with _ | sb
       · exact h
-      · exact tail t s
+      · dsimp only
+        rcases env.timeFormat _ with _ | s
+        · exact h
+        · exact tail _ s
   | header lno names p =>
     intro part m st h
     simp only [eval]
